@@ -70,7 +70,7 @@ def replay_concrete(h, params, values, want=None):
             ctx, _ = run_concrete(lambda c: h.body(c, **params), values)
         out["obligations"] = len(ctx.obligations)
         out["violated"] = [(r.name, r.occ) for r in ctx.obligations if r.status == "violated"]
-    except Reject as e:
+    except (Reject, core.PathAbort) as e:
         out["rejected"] = True
     except VkError:
         raise
@@ -172,27 +172,25 @@ def run_harness(h, params, tier, seed):
             res["paths_exception"] += 1
             e = rec["exc"]
             ename = type(e).__name__
-            if isinstance(e, h.allow_exc):
-                continue
-            key = "no_exception:%s" % ename
-            res["obligations"] += 1
-            bn = res["by_name"].setdefault(key, {"n": 0, "discharged": 0, "violated": 0, "inconclusive": 0})
-            bn["n"] += 1
-            if model is None:
-                res["inconclusive"] += 1; bn["inconclusive"] += 1
-                res["inconclusive_list"].append({"name": key, "note": "exception path without a model: %s" % str(e)[:200]})
-                continue
-            rp = replay_concrete(h, bparams, model)
-            res["candidates"] += 1
-            if rp["exc_type"] == ename:
-                path = write_replay(h, bparams, tier, key, 0, model, "exception")
-                bn["violated"] += 1
-                res["violations"].append({"key": "%s/%s" % (h.id, key), "replay": path, "what": rp["exception"][:300],
-                                          "inputs": {k: _jsonable(v) for k, v in model.items()}, "tb": rec.get("tb", "")[-600:]})
-            else:
-                res["nonrepro"].append({"name": key, "symbolic": "%s: %s" % (ename, str(e)[:200]), "concrete": rp, "tb": rec.get("tb", "")[-1200:]})
-            continue
-        # --- obligations of this path
+            if not isinstance(e, h.allow_exc):
+                key = "no_exception:%s" % ename
+                res["obligations"] += 1
+                bn = res["by_name"].setdefault(key, {"n": 0, "discharged": 0, "violated": 0, "inconclusive": 0})
+                bn["n"] += 1
+                if model is None:
+                    res["inconclusive"] += 1; bn["inconclusive"] += 1
+                    res["inconclusive_list"].append({"name": key, "note": "exception path without a model: %s" % str(e)[:200]})
+                else:
+                    rp = replay_concrete(h, bparams, model)
+                    res["candidates"] += 1
+                    if rp["exc_type"] == ename:
+                        path = write_replay(h, bparams, tier, key, 0, model, "exception")
+                        bn["violated"] += 1
+                        res["violations"].append({"key": "%s/%s" % (h.id, key), "replay": path, "what": rp["exception"][:300],
+                                                  "inputs": {k: _jsonable(v) for k, v in model.items()}, "tb": rec.get("tb", "")[-600:]})
+                    else:
+                        res["nonrepro"].append({"name": key, "symbolic": "%s: %s" % (ename, str(e)[:200]), "concrete": rp, "tb": rec.get("tb", "")[-1200:]})
+        # --- obligations of this path (also those posed before an exception ended it)
         for r in ctx.obligations:
             res["obligations"] += 1
             res["solver_s"] += r.time
@@ -270,7 +268,7 @@ def run_harness(h, params, tier, seed):
         try:
             with np.errstate(all="ignore"):
                 cctx, _ = run_concrete(body, {}, rng=rng)
-        except Reject:
+        except (Reject, core.PathAbort):
             continue
         except VkError:
             raise
@@ -283,7 +281,7 @@ def run_harness(h, params, tier, seed):
         try:
             with symnp.installed(mods):
                 pctx, _ = run_concrete(body, cctx.values, mode="pinned", opts=opts)
-        except Reject:
+        except (Reject, core.PathAbort):
             continue
         except Exception as e:
             res["validation_errors"].append("pinned run raised %s: %s" % (type(e).__name__, str(e)[:300]))
